@@ -248,6 +248,19 @@ class SelectionProof:
                         st.d.havoc_unsigned(x)
                         st.lin[l] = ("sub", aa, cc)
                         return
+            if rv["k"] == "binop" and rv["op"] in ("Add", "Sub"):
+                # release profile: unchecked arithmetic – exact only where wrapping is excluded by the current state
+                aa, cc = self.term(rv["a"]), self.term(rv["b"])
+                if aa and cc and cc[0] == "Z" and aa[0] != "Z":
+                    c = cc[1] if rv["op"] == "Add" else -cc[1]
+                    safe = st.d.entails("Z", aa[0], aa[1] + c) if c < 0 else st.d.entails(aa[0], "Z", USIZE_MAX - c - aa[1])
+                    if safe:
+                        st.d.assign_var_plus(x, aa[0], aa[1] + c)
+                        return
+                if aa and cc and rv["op"] == "Sub" and aa[0] != "Z" and cc[0] != "Z" and st.le(cc, aa):
+                    st.d.havoc_unsigned(x)
+                    st.lin[l] = ("sub", aa, cc)
+                    return
             st.d.havoc_unsigned(x)
             return
         if rv["k"] == "binop" and rv["op"].endswith("WithOverflow"):
